@@ -1,2 +1,239 @@
-/* vssops.c — VSS codec operations (filled in by C07-C10). */
-int vm_vss(char** tok, int nt) { (void)tok; (void)nt; return 0; }
+/* vssops.c — VSS codec operations on the real library.  Every caller-side object (path
+   buffer, element arrays, string buffers) is a separate exact-extent heap block, so that
+   AddressSanitizer traps any access beyond what the API contract allows. */
+#include <stdio.h>
+#include <stdlib.h>
+#include <string.h>
+#include <inttypes.h>
+#include "avtp/acf/custom/Vss.h"
+
+typedef struct { char id[32]; uint8_t* p; size_t n; } buf_t;
+buf_t* vm_find(const char* id);
+
+static int hexv(int c) {
+    if (c >= '0' && c <= '9') return c - '0';
+    if (c >= 'a' && c <= 'f') return c - 'a' + 10;
+    if (c >= 'A' && c <= 'F') return c - 'A' + 10;
+    return -1;
+}
+static uint8_t* unhex(const char* hex, size_t* n) {
+    *n = strcmp(hex, "-") ? strlen(hex) / 2 : 0;
+    uint8_t* p = malloc(*n ? *n : 1);
+    for (size_t i = 0; i < *n; i++) p[i] = (uint8_t)(hexv(hex[2*i]) * 16 + hexv(hex[2*i+1]));
+    return p;
+}
+static void phex(const uint8_t* p, size_t n) {
+    if (!n) { putchar('-'); return; }
+    for (size_t i = 0; i < n; i++) printf("%02x", p[i]);
+}
+static int elem_size(int code) {
+    switch (code) {
+        case 0x82: case 0x83: return 2;
+        case 0x84: case 0x85: case 0x89: return 4;
+        case 0x86: case 0x87: case 0x8A: return 8;
+        default: return 0;
+    }
+}
+static int is_blob(int code) { return code == 0xB || code == 0x80 || code == 0x81 || code == 0x88 || code == 0x8B; }
+static int scalar_size(int code) {
+    switch (code) { case 0: case 1: case 8: return 1; case 2: case 3: return 2; case 4: case 5: case 9: return 4;
+                    case 6: case 7: case 0xA: return 8; default: return 0; }
+}
+
+int vm_vss(char** tok, int nt) {
+    if (!strcmp(tok[0], "vss_pad") && nt == 4) {
+        buf_t* b = vm_find(tok[1]); if (!b) { puts("bad-op"); return 1; }
+        Avtp_Vss_Pad((Avtp_Vss_t*)(b->p + atol(tok[2])), (uint16_t)atol(tok[3]));
+        return 1;
+    }
+    if (!strcmp(tok[0], "vss_calc") && nt == 3) {
+        buf_t* b = vm_find(tok[1]); if (!b) { puts("bad-op"); return 1; }
+        printf("v %u\n", (unsigned)Avtp_Vss_CalcVssPathLength((Avtp_Vss_t*)(b->p + atol(tok[2]))));
+        return 1;
+    }
+    /* vss_setpath <buf> <off> <path_length> <pathhex> <static id> */
+    if (!strcmp(tok[0], "vss_setpath") && nt == 6) {
+        buf_t* b = vm_find(tok[1]); if (!b) { puts("bad-op"); return 1; }
+        Avtp_Vss_t* pdu = (Avtp_Vss_t*)(b->p + atol(tok[2]));
+        size_t n; uint8_t* path = unhex(tok[4], &n);
+        VssPath_t v; memset(&v, 0, sizeof v);
+        if (Avtp_Vss_GetAddrMode(pdu) == VSS_STATIC_ID_MODE) v.vss_static_id_path = (uint32_t)strtoull(tok[5], NULL, 10);
+        else { v.vss_interop_path.path_length = (uint16_t)atol(tok[3]); v.vss_interop_path.path = (char*)path; }
+        Avtp_Vss_SetVssPath(pdu, &v);
+        free(path);
+        return 1;
+    }
+    if (!strcmp(tok[0], "vss_getpath") && nt == 3) {
+        buf_t* b = vm_find(tok[1]); if (!b) { puts("bad-op"); return 1; }
+        Avtp_Vss_t* pdu = (Avtp_Vss_t*)(b->p + atol(tok[2]));
+        unsigned mode = Avtp_Vss_GetAddrMode(pdu);
+        VssPath_t v; memset(&v, 0, sizeof v);
+        if (mode == VSS_STATIC_ID_MODE) { Avtp_Vss_GetVssPath(pdu, &v); printf("sid %u\n", v.vss_static_id_path); }
+        else if (mode == VSS_INTEROP_MODE) {
+            /* destination of exactly the announced size */
+            unsigned total = Avtp_Vss_CalcVssPathLength(pdu);
+            unsigned len = (total - 2) & 0xffff;
+            uint8_t* dst = malloc(len ? len : 1);
+            v.vss_interop_path.path = (char*)dst;
+            Avtp_Vss_GetVssPath(pdu, &v);
+            printf("path %u ", (unsigned)v.vss_interop_path.path_length); phex(dst, v.vss_interop_path.path_length); putchar('\n');
+            free(dst);
+        } else { Avtp_Vss_GetVssPath(pdu, &v); puts("none"); }
+        return 1;
+    }
+    /* vss_setdata <buf> <off> s <bits> | b <data_length> <hex> | e <data_length> <v,v,...|-> */
+    if (!strcmp(tok[0], "vss_setdata") && nt >= 5) {
+        buf_t* b = vm_find(tok[1]); if (!b) { puts("bad-op"); return 1; }
+        Avtp_Vss_t* pdu = (Avtp_Vss_t*)(b->p + atol(tok[2]));
+        int code = Avtp_Vss_GetDatatype(pdu);
+        VssData_t v; memset(&v, 0, sizeof v);
+        if (tok[3][0] == 's' && nt == 5) {
+            uint64_t bits = strtoull(tok[4], NULL, 10);
+            switch (scalar_size(code)) {
+                case 1: v.data_uint8 = (uint8_t)bits; break;
+                case 2: v.data_uint16 = (uint16_t)bits; break;
+                case 4: if (code == 9) { uint32_t t = (uint32_t)bits; memcpy(&v.data_float, &t, 4); } else v.data_uint32 = (uint32_t)bits; break;
+                case 8: if (code == 0xA) memcpy(&v.data_double, &bits, 8); else v.data_uint64 = bits; break;
+                default: v.data_uint64 = bits; break;
+            }
+            Avtp_Vss_SetVssData(pdu, &v);
+            return 1;
+        }
+        if (tok[3][0] == 'b' && nt == 6) {
+            size_t n; uint8_t* data = unhex(tok[5], &n);
+            VssDataUint8Array_t arr = { (uint16_t)atol(tok[4]), data };
+            v.data_uint8_array = &arr;
+            Avtp_Vss_SetVssData(pdu, &v);
+            free(data);
+            return 1;
+        }
+        if (tok[3][0] == 'e' && nt == 6) {
+            int k = elem_size(code); if (!k) k = 2;
+            size_t cnt = 0;
+            if (strcmp(tok[5], "-")) { cnt = 1; for (char* c = tok[5]; *c; c++) if (*c == ',') cnt++; }
+            uint8_t* data = malloc(cnt * k ? cnt * k : 1);
+            char* save; size_t i = 0;
+            if (cnt) for (char* t = strtok_r(tok[5], ",", &save); t; t = strtok_r(NULL, ",", &save), i++) {
+                uint64_t x = strtoull(t, NULL, 10);
+                if (k == 2) { uint16_t y = (uint16_t)x; memcpy(data + 2*i, &y, 2); }
+                else if (k == 4) { uint32_t y = (uint32_t)x; memcpy(data + 4*i, &y, 4); }
+                else memcpy(data + 8*i, &x, 8);
+            }
+            VssDataUint16Array_t arr = { (uint16_t)atol(tok[4]), (uint16_t*)data };
+            v.data_uint16_array = &arr;
+            Avtp_Vss_SetVssData(pdu, &v);
+            free(data);
+            return 1;
+        }
+        puts("bad-op");
+        return 1;
+    }
+    /* vss_getdata <buf> <off> <have destination 0|1> : two-phase protocol */
+    if (!strcmp(tok[0], "vss_getdata") && nt == 4) {
+        buf_t* b = vm_find(tok[1]); if (!b) { puts("bad-op"); return 1; }
+        Avtp_Vss_t* pdu = (Avtp_Vss_t*)(b->p + atol(tok[2]));
+        int have = atoi(tok[3]);
+        int code = Avtp_Vss_GetDatatype(pdu);
+        VssData_t v; memset(&v, 0, sizeof v);
+        int ks = scalar_size(code);
+        if (ks) {
+            Avtp_Vss_GetVssData(pdu, &v);
+            uint64_t bits = 0;
+            if (ks == 1) bits = v.data_uint8; else if (ks == 2) bits = v.data_uint16;
+            else if (ks == 4) { uint32_t t; memcpy(&t, &v.data_uint32, 4); bits = t; }
+            else memcpy(&bits, &v.data_uint64, 8);
+            printf("s %" PRIu64 "\n", bits);
+            return 1;
+        }
+        if (is_blob(code) || elem_size(code)) {
+            /* phase 1: no destination -> only the length is reported */
+            VssDataUint8Array_t arr = { 0xBEEF, NULL };
+            v.data_uint8_array = &arr;
+            Avtp_Vss_GetVssData(pdu, &v);
+            unsigned len = arr.data_length;
+            if (!have) { printf("%c %u -\n", is_blob(code) ? 'b' : 'e', len); return 1; }
+            int k = elem_size(code);
+            size_t bytes = is_blob(code) ? len : (size_t)(len / k) * k;
+            uint8_t* dst = malloc(bytes ? bytes : 1);      /* exactly the reported extent */
+            arr.data = dst; arr.data_length = 0xBEEF;
+            Avtp_Vss_GetVssData(pdu, &v);
+            if (is_blob(code)) { printf("b %u ", (unsigned)arr.data_length); phex(dst, arr.data_length); putchar('\n'); }
+            else {
+                printf("e %u ", (unsigned)arr.data_length);
+                size_t cnt = arr.data_length / k;
+                if (!cnt) putchar('-');
+                for (size_t i = 0; i < cnt; i++) {
+                    uint64_t x = 0;
+                    if (k == 2) { uint16_t y; memcpy(&y, dst + 2*i, 2); x = y; }
+                    else if (k == 4) { uint32_t y; memcpy(&y, dst + 4*i, 4); x = y; }
+                    else memcpy(&x, dst + 8*i, 8);
+                    printf("%s%" PRIu64, i ? "," : "", x);
+                }
+                putchar('\n');
+            }
+            free(dst);
+            return 1;
+        }
+        Avtp_Vss_GetVssData(pdu, &v);
+        puts("none");
+        return 1;
+    }
+    /* vss_ser <cap> <n> {<len> <hex>}*n : serialise into an exact `cap`-byte destination */
+    if (!strcmp(tok[0], "vss_ser") && nt >= 3) {
+        size_t cap = (size_t)atol(tok[1]); int n = atoi(tok[2]);
+        if (nt != 3 + 2 * n) { puts("bad-op"); return 1; }
+        uint8_t* dst = malloc(cap ? cap : 1);
+        memset(dst, 0xEE, cap ? cap : 1);
+        VssDataStringArray_t arr = { 0, dst };
+        VssDataString_t* strs = malloc(sizeof(VssDataString_t) * (n ? n : 1));
+        VssDataString_t** ptrs = malloc(sizeof(void*) * (n ? n : 1));
+        uint8_t** bufs = malloc(sizeof(void*) * (n ? n : 1));
+        for (int i = 0; i < n; i++) {
+            size_t l; bufs[i] = unhex(tok[4 + 2*i], &l);
+            strs[i].data_length = (uint16_t)atol(tok[3 + 2*i]); strs[i].data = (char*)bufs[i]; ptrs[i] = &strs[i];
+        }
+        Avtp_Vss_SerializeStringArray(&arr, ptrs, (uint16_t)n);
+        printf("b %u ", (unsigned)arr.data_length); phex(dst, cap); putchar('\n');
+        for (int i = 0; i < n; i++) free(bufs[i]);
+        free(bufs); free(ptrs); free(strs); free(dst);
+        return 1;
+    }
+    /* vss_count <data_length> <hex> */
+    if (!strcmp(tok[0], "vss_count") && nt == 3) {
+        size_t n; uint8_t* data = unhex(tok[2], &n);
+        VssDataStringArray_t arr = { (uint16_t)atol(tok[1]), data };
+        printf("v %u\n", (unsigned)Avtp_Vss_GetVSSDataStringArrayLength(&arr));
+        free(data);
+        return 1;
+    }
+    /* vss_deser <data_length> <hex> <num requested> <have destinations 0|1> */
+    if (!strcmp(tok[0], "vss_deser") && nt == 5) {
+        size_t n; uint8_t* data = unhex(tok[2], &n);
+        int num = atoi(tok[3]), have = atoi(tok[4]);
+        VssDataStringArray_t arr = { (uint16_t)atol(tok[1]), data };
+        VssDataString_t* strs = malloc(sizeof(VssDataString_t) * (num ? num : 1));
+        VssDataString_t** ptrs = malloc(sizeof(void*) * (num ? num : 1));
+        for (int i = 0; i < num; i++) { strs[i].data_length = 0xBEEF; strs[i].data = NULL; ptrs[i] = &strs[i]; }
+        /* phase 1: lengths only */
+        Avtp_Vss_DeserializeStringArray(&arr, ptrs, (uint16_t)num);
+        if (have) {
+            for (int i = 0; i < num; i++) {
+                unsigned l = strs[i].data_length == 0xBEEF ? 0 : strs[i].data_length;
+                strs[i].data = malloc(l ? l : 1);     /* exactly the reported length */
+                strs[i].data_length = 0xBEEF;
+            }
+            Avtp_Vss_DeserializeStringArray(&arr, ptrs, (uint16_t)num);
+        }
+        printf("n");
+        for (int i = 0; i < num; i++) {
+            if (strs[i].data_length == 0xBEEF) { printf(" ."); continue; }   /* not filled in */
+            printf(" %u:", (unsigned)strs[i].data_length);
+            if (have) phex((uint8_t*)strs[i].data, strs[i].data_length); else putchar('-');
+        }
+        putchar('\n');
+        if (have) for (int i = 0; i < num; i++) free(strs[i].data);
+        free(ptrs); free(strs); free(data);
+        return 1;
+    }
+    return 0;
+}
